@@ -97,3 +97,8 @@ CLAIMS["C18"] = {
     "note": "Only IPv4 loopback peers can be produced in this sandbox; IPv6 entries are exercised as non-matching entries only.",
     "technique": "runtime monitoring: socket-level client harness with scripted faults + HTTP response decoder + CIDR reference model + exposition parser",
 }
+CLAIMS["C11"] = {
+    "text": "Exploration with fault scripts: real exporters for every buffer configuration (incl. no limit) are driven by tagged emissions from several threads while harness clients read, stall, close, reset and join late; every byte each client received is decoded by an independent protobuf decoder and judged (whole frames, metadata first, intact content, per-emitter order, no duplicate, no gap for reading clients under ack-based pacing), and the exporter's client accounting is checked against the harness's own view after every round. Non-serving configurations are established logically (listener refuses connections).",
+    "note": "Delivery is judged by logical evidence only (gaps, accounting, refused connections); pure wall-clock stalls are inconclusive. Miri cannot run mio, so this property is native-only.",
+    "technique": "runtime monitoring: socket-level clients with scripted faults, independent frame decoder, per-emitter sequence oracle, state-invariant accessor",
+}
